@@ -229,3 +229,144 @@ func (s *sessions) lookupLocked(h Header) (Handler, error) {
 			h.Write(part)
 		}`}}})
 }
+
+func init() {
+	addMutant(Mutant{Name: "benign-header-appended-pieces", Benign: true, Props: []string{"C01", "C02", "C03", "C06"},
+		Why: "the header is put together by appending staged pieces in wire order",
+		Edits: []Edit{{File: "header.go", Old: `	buf := make([]byte, MaxHeaderLength)
+	version, err := h.Version.MarshalBinary()
+	if err != nil {
+		return nil, err
+	}
+	buf[0] = version[0]
+	buf[1] = uint8(h.Type)
+	buf[2] = uint8(h.SeqNo)
+	buf[3] = uint8(h.Flags)
+	binary.BigEndian.PutUint32(buf[4:], uint32(h.SessionID))
+	binary.BigEndian.PutUint32(buf[8:], h.Length)
+	return buf, nil`, New: `	version, err := h.Version.MarshalBinary()
+	if err != nil {
+		return nil, err
+	}
+	var sessionID, length [4]byte
+	binary.BigEndian.PutUint32(sessionID[:], uint32(h.SessionID))
+	binary.BigEndian.PutUint32(length[:], h.Length)
+	buf := make([]byte, 0, MaxHeaderLength)
+	buf = append(buf, version...)
+	buf = append(buf, uint8(h.Type), uint8(h.SeqNo), uint8(h.Flags))
+	buf = append(buf, sessionID[:]...)
+	buf = append(buf, length[:]...)
+	return buf, nil`}}})
+	addMutant(Mutant{Name: "benign-length-bounds-through-helper", Benign: true, Props: []string{"C02", "C04", "C14"},
+		Why: "the one-octet length fields are checked through a variadic helper against 0xff",
+		Edits: []Edit{{File: "accounting.go", Old: `	if len(a.User) > 0xff || len(a.Port) > 0xff || len(a.RemAddr) > 0xff || len(a.Args) > 0xff {
+		return fmt.Errorf("user, port and rem_addr must not exceed 255 bytes each, nor args 255 entries")
+	}
+	// validate
+	for _, t := range []Field{a.Method, a.PrivLvl, a.Type, a.Service, a.User, a.Port, a.RemAddr, a.Flags} {`, New: `	if anyLenExceeds(0xff, len(a.User), len(a.Port), len(a.RemAddr), len(a.Args)) {
+		return fmt.Errorf("user, port and rem_addr must not exceed 255 bytes each, nor args 255 entries")
+	}
+	// validate
+	for _, t := range []Field{a.Method, a.PrivLvl, a.Type, a.Service, a.User, a.Port, a.RemAddr, a.Flags} {`}, {File: "accounting.go", Old: `// Validate all fields on this type
+func (a *AcctRequest) Validate() error {`, New: `func anyLenExceeds(limit int, lens ...int) bool {
+	for _, n := range lens {
+		if n > limit {
+			return true
+		}
+	}
+	return false
+}
+
+// Validate all fields on this type
+func (a *AcctRequest) Validate() error {`}}})
+	addMutant(Mutant{Name: "benign-header-type-table", Benign: true, Props: []string{"C07", "C01", "C02"},
+		Why: "the header types are validated against a table of names with exactly the declared entries",
+		Edits: []Edit{{File: "header_fields.go", Old: `	switch t {
+	case Authenticate, Authorize, Accounting:
+		return nil
+	}
+	return fmt.Errorf("unknown HeaderType value [%v]", t)
+}`, New: `	if int(t) < len(headerTypeNames) && headerTypeNames[t] != "" {
+		return nil
+	}
+	return fmt.Errorf("unknown HeaderType value [%v]", t)
+}
+
+var headerTypeNames = [...]string{
+	Authenticate: "Authenticate",
+	Authorize:    "Authorize",
+	Accounting:   "Accounting",
+}`}}})
+}
+
+func init() {
+	addMutant(Mutant{Name: "benign-fields-candidate-table", Benign: true, Props: []string{"C19", "C18", "C07"},
+		Why: "Request.Fields takes its candidates from a per-type list of fresh body values",
+		Edits: []Edit{{File: "handlers.go", Old: `	switch r.Header.Type {
+	case Authenticate:
+		var as AuthenStart
+		if err := Unmarshal(r.Body, &as); err == nil {
+			merge(allFields, as.Fields())
+			return allFields
+		}
+		var ac AuthenContinue
+		if err := Unmarshal(r.Body, &ac); err == nil {
+			merge(allFields, ac.Fields())
+			return allFields
+		}
+		var ar AuthenReply
+		if err := Unmarshal(r.Body, &ar); err == nil {
+			merge(allFields, ar.Fields())
+			return allFields
+		}
+
+	case Authorize:
+		var ar AuthorRequest
+		if err := Unmarshal(r.Body, &ar); err == nil {
+			merge(allFields, ar.Fields())
+			return allFields
+		}
+		var arr AuthorReply
+		if err := Unmarshal(r.Body, &arr); err == nil {
+			merge(allFields, arr.Fields())
+			return allFields
+		}
+
+	case Accounting:
+		var ar AcctRequest
+		if err := Unmarshal(r.Body, &ar); err == nil {
+			merge(allFields, ar.Fields())
+			return allFields
+		}
+		var arr AcctReply
+		if err := Unmarshal(r.Body, &arr); err == nil {
+			merge(allFields, arr.Fields())
+			return allFields
+		}
+	}
+	// unknown packet
+	return nil
+}
+`, New: `	for _, body := range fieldCandidates(r.Header.Type) {
+		if err := Unmarshal(r.Body, body); err == nil {
+			merge(allFields, body.Fields())
+			return allFields
+		}
+	}
+	// unknown packet
+	return nil
+}
+
+func fieldCandidates(t HeaderType) []EncoderDecoder {
+	switch t {
+	case Authenticate:
+		return []EncoderDecoder{&AuthenStart{}, &AuthenContinue{}, &AuthenReply{}}
+	case Authorize:
+		return []EncoderDecoder{&AuthorRequest{}, &AuthorReply{}}
+	case Accounting:
+		return []EncoderDecoder{&AcctRequest{}, &AcctReply{}}
+	}
+	return nil
+}
+`}}})
+}
